@@ -135,3 +135,143 @@ func aliasing(t *testing.T, s *seqx.Suite, thorough bool) {
 		})
 	}
 }
+
+// heldRecords: records are taken from a fetched record set and kept; their keys and values are read or released
+// later, in any order, while other fetches go on. Every sequence (length <= 5, thorough 6) over
+// {fetch X, take all records of X, read the oldest unread held record of X, release the oldest held record of X}
+// for two topics; the first record of each topic has a null key and an EMPTY (non-null) value, the others
+// small payloads, so that all of them share one page of the decoder's buffer pool.
+func heldRecords(t *testing.T, s *seqx.Suite, thorough bool) {
+	s.Begin("held-records-stay-intact-until-released")
+	ops := []string{"fetchA", "fetchB", "takeA", "takeB", "readA", "readB", "releaseA", "releaseB"}
+	maxLen := 5
+	if thorough {
+		maxLen = 6
+	}
+	var seqs [][]int
+	var gen func(cur []int)
+	gen = func(cur []int) {
+		if len(cur) > 0 {
+			seqs = append(seqs, append([]int(nil), cur...))
+		}
+		if len(cur) == maxLen {
+			return
+		}
+		for i := range ops {
+			gen(append(cur, i))
+		}
+	}
+	gen(nil)
+	for _, sq := range seqs {
+		// sequences that start with a fetch, take something and end with a read
+		if sq[0] > 1 || ops[sq[len(sq)-1]][:4] != "read" {
+			continue
+		}
+		takes := false
+		for _, o := range sq {
+			takes = takes || ops[o][:4] == "take"
+		}
+		if !takes {
+			continue
+		}
+		sq := sq
+		id := ""
+		for _, o := range sq {
+			id += ops[o] + ","
+		}
+		s.Case(id, id, func() (string, *seqx.Viol) {
+			var v *seqx.Viol
+			nreads := 0
+			br := bub.Run(t, 0, func() {
+				c := hx.NewCluster()
+				c.AddTopic("a", 1, nil)
+				c.AddTopic("b", 1, nil)
+				for ti, tn := range []string{"a", "b"} {
+					b := &refwire.Batch{Format: 2, Base: 0, Last: 2}
+					b.Recs = append(b.Recs, refwire.Rec{Offset: 0, TS: 1, Key: nil, Value: []byte{}})
+					b.Recs = append(b.Recs, refwire.Rec{Offset: 1, TS: 1, Key: nil, Value: []byte(fmt.Sprintf("%s-payload-one-%d", tn, ti))})
+					if tn == "b" {
+						// topic a: the empty value's only neighbour is one keyless record (a single page reference)
+						b.Recs = append(b.Recs, refwire.Rec{Offset: 2, TS: 1, Key: []byte(tn + "-key"), Value: []byte(fmt.Sprintf("%s-payload-two-%d", tn, ti))})
+					} else {
+						b.Last = 1
+					}
+					c.Part(tn, 0).Append(b)
+				}
+				cl, tr := clientops.NewClient(c)
+				defer tr.CloseIdleConnections()
+				type held struct {
+					rec  *kafka.Record
+					read bool
+				}
+				type st struct {
+					rr   kafka.RecordReader
+					held []*held
+				}
+				state := map[string]*st{"a": {}, "b": {}}
+				for _, o := range sq {
+					tn := "a"
+					if o%2 == 1 {
+						tn = "b"
+					}
+					x := state[tn]
+					switch ops[o][:4] {
+					case "fetc":
+						r, err := cl.Fetch(context.Background(), &kafka.FetchRequest{Topic: tn, Partition: 0, Offset: 0, MinBytes: 1, MaxBytes: 1 << 20, MaxWait: 50 * time.Millisecond})
+						if err != nil {
+							v = &seqx.Viol{Sig: "held:fetch-failed", Msg: err.Error()}
+							return
+						}
+						x.rr = r.Records
+					case "take":
+						for x.rr != nil {
+							rec, err := x.rr.ReadRecord()
+							if err != nil {
+								x.rr = nil
+								break
+							}
+							cp := *rec // the Record is only valid until the next ReadRecord: the program keeps a copy
+							x.held = append(x.held, &held{rec: &cp})
+						}
+					case "read":
+						for _, h := range x.held {
+							if h.read {
+								continue
+							}
+							h.read = true
+							nreads++
+							var k, val []byte
+							if h.rec.Key != nil {
+								k, _ = protocol.ReadAll(h.rec.Key)
+							}
+							if h.rec.Value != nil {
+								val, _ = protocol.ReadAll(h.rec.Value)
+							}
+							want := c.Part(tn, 0).Log[0].Recs[h.rec.Offset]
+							if string(k) != string(want.Key) || string(val) != string(want.Value) {
+								v = &seqx.Viol{Sig: "held:bytes-changed", Msg: fmt.Sprintf("record %s/%d, held since it was fetched, reads key %q value %q after %s; stored: key %q value %q", tn, h.rec.Offset, k, val, id, want.Key, want.Value)}
+								return
+							}
+							break
+						}
+					case "rele":
+						if len(x.held) > 0 {
+							h := x.held[0]
+							x.held = x.held[1:]
+							if h.rec.Key != nil {
+								h.rec.Key.Close()
+							}
+							if h.rec.Value != nil {
+								h.rec.Value.Close()
+							}
+						}
+					}
+				}
+			})
+			if br.Panic != "" {
+				return "panic", &seqx.Viol{Sig: "panic:held", Msg: br.Panic}
+			}
+			return fmt.Sprint(len(sq), nreads > 0), v
+		})
+	}
+}
